@@ -3,6 +3,12 @@
 R8.count     every call that resolves to std::io::Write::write (any receiver, incl. generic W
              and dyn Write) in the code reachable from the serializer / the writing CLI actions
              must have its returned count used; otherwise the callee must be write_all/write_fmt.
+R8.account   a partial write (write / write_vectored) outside a forwarding `impl Write` must be provably resumed:
+             either std's resume loop (buf = &buf[n..] until empty) or, on straight-line code, the complete writes
+             that follow spell exactly the bytes still owed (linear arithmetic over the count, see c08_account.py).
+R8.flush     every buffering writer (BufWriter / LineWriter / stdout, or a local type built around one) that a function
+             owns and writes to is flushed explicitly, the Result consumed, after the last write and outside any
+             conditional; the owning types forward flush(). A drop-time flush swallows the error.
 R8.forward   local `impl Write` types must forward `write` (count returned unchanged) and must
              not override write_all/write_fmt with something that is not a plain forward.
 R8.propagate every Result produced on that path is returned, `?`-propagated, expect/unwrap-ed,
@@ -11,6 +17,7 @@ R8.propagate every Result produced on that path is returned, `?`-propagated, exp
 from .. import anchors as A
 from ..facts import walk_body, callee_def, callee_name, loc, user_macros_of
 from ..valueflow import final_uses, success_value_uses
+from . import c08_account as AC
 
 LEVEL = "proof"
 
@@ -49,9 +56,12 @@ def run(ck, fx, cg, tier):
                       "failing sinks, which the property's quantifier (short writes) does not include"]
     rs = roots(ck, fx, cg)
     from .. import canary
-    canary.require(ck, {'R8.count', 'Rx.propagate'})
+    canary.require(ck, {'R8.count', 'R8.account', 'Rx.propagate'})
     reach = cg.reachable(rs)
     n_sink_sites = 0
+    n_account = 0
+    forwarders = {"<%s as std::io::Write>::%s" % (imp["self_ty"], item) for imp in fx.impls if imp.get("trait") == "std::io::Write" and imp.get("in_src")
+                  for item in imp["items"]}
     n_result_sites = 0
     prim_sites = 0
     for did in sorted(reach):
@@ -79,6 +89,18 @@ def run(ck, fx, cg, tier):
                                   u.detail or u.kind for u in bad)))
                     ck.sample({"rule": "R8.count", "fn": hb["path"], "at": loc(n), "callee": callee_name(n),
                                "count_consumers": [u.kind for u in uses]})
+                    # the count must also be used *correctly*: the bytes not taken are written next
+                    if hb["path"] in forwarders:
+                        continue   # R8.forward: the count goes back to the caller unchanged
+                    n_account += 1
+                    okl, whyl = AC.resume_loop(fx, hb, n, ps)
+                    if okl:
+                        ck.ob("R8.account", key, True, loc(n), whyl)
+                    else:
+                        approved = {loc(x) for x, ps2 in walk_body(hb) if x.get("k") in ("MethodCall", "Call") and callee_def(x) == WRITE and AC.resume_loop(fx, hb, x, ps2)[0]}
+                        okb, whyb = AC.account_function(fx, hb, approved)
+                        ck.ob("R8.account", key, okb, loc(n), whyb if okb else
+                              "cannot show that the bytes the sink did not take are written next: %s" % whyb)
                 elif cd in COMPLETE:
                     n_sink_sites += 1
                     if hb["path"].startswith("bytecode::serializable::"):
@@ -110,17 +132,127 @@ def run(ck, fx, cg, tier):
                     continue
                 ck.fn(path)
                 if item == "flush":
-                    continue
+                    continue   # R8.flush
                 ok, why = _is_plain_forward(hb, "std::io::Write::" + item)
                 ck.ob("R8.forward", "%s|%s" % (st, item), ok, loc(hb), why)
                 ck.sample({"rule": "R8.forward", "impl": path, "verdict": why})
+    _flush(ck, fx, cg, reach)
     ck.floor("R8.count", "sink write sites in the reachable set", n_sink_sites, 7)
     ck.floor("R8.count", "primitive writer sites in serializable.rs", prim_sites, 6)
     ck.floor("R8.forward", "local impl Write", n_impls, 1)
     ck.floor("R8.propagate", "Result-typed expressions examined", n_result_sites, 40)
     ck.extra["sink_write_sites"] = n_sink_sites
+    ck.extra["partial_write_sites_outside_forwarders"] = n_account
     ck.extra["result_sites_examined"] = n_result_sites
     ck.extra["reachable_functions"] = len(reach)
+
+
+BUFFERING_CTORS = ("std::io::BufWriter::<W>::new", "std::io::BufWriter::<W>::with_capacity", "std::io::LineWriter::<W>::new",
+                   "std::io::LineWriter::<W>::with_capacity", "std::io::stdout")
+BUFFERED_STD = ("std::io::BufWriter<", "std::io::LineWriter<", "std::io::Stdout", "std::io::StdoutLock")
+FLUSHERS = ("std::io::Write::flush", "std::io::BufWriter::<W>::into_inner", "std::io::LineWriter::<W>::into_inner")
+
+
+def buffered_types(fx):
+    """std's buffering writers plus every local struct that is built around one (NamedSink { sink: Box::new(BufWriter::new(..)) })"""
+    local = {}
+    for hb in fx.hir:
+        if hb["from_expansion"]:
+            continue
+        for n, ps in walk_body(hb):
+            if n.get("k") in ("Call", "MethodCall") and callee_def(n) in BUFFERING_CTORS:
+                for role, p in reversed(ps):
+                    if p.get("k") == "Struct" and (p.get("res") or {}).get("path") in fx.adts:
+                        local.setdefault(p["res"]["path"], []).append((hb["path"], loc(n), callee_def(n)))
+                        break
+                    if p.get("k") in ("Block", "Closure", "Match", "If"):
+                        break
+    return local
+
+
+def _is_buffered(ty, local):
+    ty = ty or ""
+    while ty.startswith("&"):
+        ty = ty.lstrip("&").replace("mut ", "", 1).strip()
+    return ty.startswith(BUFFERED_STD) or ty in local
+
+
+def unflushed_sinks(fx, hb, local):
+    """(local name, where, why) for every buffered sink owned by a local of this body that is written to but not
+    flushed — with the flush result consumed — on the straight path to the function's successful end."""
+    from ..facts import peel
+    out = []
+    owned = {}
+    for n, ps in walk_body(hb):
+        if n.get("k") == "Block":
+            for st in n["block"]["stmts"]:
+                if st["k"] == "Let" and st["pat"].get("k") == "Binding" and _is_buffered(fx.tyname(st["pat"].get("ty")), local) \
+                        and not (fx.tyname(st["pat"].get("ty")) or "").startswith("&"):
+                    owned[st["pat"]["lid"]] = (st["pat"].get("name"), loc(st))
+    if not owned:
+        return out, 0
+    order = {id(n): i for i, (n, ps) in enumerate(walk_body(hb))}
+    for lid, (name, where) in owned.items():
+        uses = []     # (order, kind)
+        flushes = []
+        for n, ps in walk_body(hb):
+            if n.get("k") == "Path" and n["res"].get("k") == "Local" and n["res"]["lid"] == lid:
+                # the consuming call
+                call = None
+                for role, p in reversed(ps):
+                    if p.get("k") in ("Call", "MethodCall"):
+                        call = p
+                        break
+                    if p.get("k") in ("Block", "Closure"):
+                        break
+                if call is None:
+                    continue
+                cd = callee_def(call) or ""
+                if cd in FLUSHERS and call.get("k") == "MethodCall" and peel(call["recv"]) is n or (cd in FLUSHERS and n in [peel(a) for a in call.get("args", [])]):
+                    cps = [pp for x, pp in walk_body(hb) if x is call][0]
+                    nested = [p.get("k") for role, p in cps if p.get("k") in ("If", "Loop", "Closure") or (p.get("k") == "Match" and p.get("src") == "Normal")]
+                    res_uses = final_uses(call, cps, hb["value"])
+                    dropped = [u for u in res_uses if u.kind in BAD]
+                    flushes.append((order[id(call)], not nested and not dropped, "inside %s" % nested[0] if nested else ("its Result is dropped" if dropped else "")))
+                else:
+                    # a write needs the sink mutably borrowed; a by-value use moves it on (the new owner is responsible)
+                    par = ps[-1][1] if ps else {}
+                    borrowed = (par.get("k") == "AddrOf" and par.get("mut") is True) or any(
+                        str(a.get("k", "")).startswith("Borrow:mut") for a in n.get("adj", []))
+                    if borrowed:
+                        uses.append(order[id(call)])
+        if not uses:
+            continue          # handed on / returned unwritten: whoever writes to it is responsible
+        good = [f for f in flushes if f[1] and f[0] > max(uses)]
+        if not good:
+            why = "never flushed" if not flushes else "; ".join(f[2] or "flushed before the last write" for f in flushes)
+            out.append((name, where, why))
+    return out, len(owned)
+
+
+def _flush(ck, fx, cg, reach):
+    """R8.flush: a buffering writer reports the errors of its buffered tail only through flush(); when it is dropped
+    the tail is written with the error discarded, so success is reported although bytes were lost."""
+    local = buffered_types(fx)
+    n_owned = 0
+    for did in sorted(reach):
+        hb = fx.hir_by_did.get(did)
+        if hb is None or hb["from_expansion"]:
+            continue
+        bad, n = unflushed_sinks(fx, hb, local)
+        n_owned += n
+        for name, where, why in bad:
+            ck.ob("R8.flush", "%s|%s" % (hb["path"], name), False, where,
+                  "the buffered sink `%s` is written to and then dropped without an explicit, checked flush (%s): an error while its buffered tail is written is swallowed and the command reports success" % (name, why))
+        if n and not bad:
+            ck.ob("R8.flush", "%s|owned buffered sinks" % hb["path"], True, loc(hb), "%d buffered sink(s) flushed with the result checked after the last write" % n)
+    for t, sites in sorted(local.items()):
+        fb = fx.body("<%s as std::io::Write>::flush" % t)
+        if ck.anchor("R8.flush", "<%s as Write>::flush" % t, fb):
+            ok, why = _is_plain_forward(fb, "std::io::Write::flush")
+            ck.ob("R8.flush", "%s|flush forwards" % t, ok, loc(fb), why)
+    ck.floor("R8.flush", "locally owned buffered sinks on the output path", n_owned, 2)
+    ck.extra["buffered_sink_types"] = sorted(local)
 
 
 def _short(n):
